@@ -667,6 +667,117 @@ fn c05_l4_check_comparison_conservative() {
     std::mem::forget(lit);
 }
 
+// ---------------------------------------------------------------- L4 dispatch against callee contracts
+// The check_comparison region again, this time with the four check_*_stats callees as
+// CONTRACT ORACLES: ghost row x; HOLDS[i] is the (arbitrary) truth of `x op_i literal`
+// for the six comparison operators. Contract of every callee (proved by the L1/L2
+// obligations): holds(x op val) ==> returns true. Verified here: whichever literal type
+// and orientation, the region asks the right callee about the right operator.
+pub mod disp {
+    use super::super::{BinaryOp, ParquetStatistics, ScalarValue};
+    use super::super::flip_op;
+    pub static mut HOLDS: [bool; 6] = [false; 6];
+    /// which callee was asked: 1 = i64, 2 = i32, 3 = f64, 4 = utf8
+    pub static mut ASKED: u8 = 0;
+    pub fn op_ix(op: BinaryOp) -> usize {
+        match op {
+            BinaryOp::Eq => 0,
+            BinaryOp::NotEq => 1,
+            BinaryOp::Lt => 2,
+            BinaryOp::LtEq => 3,
+            BinaryOp::Gt => 4,
+            BinaryOp::GtEq => 5,
+            _ => panic!("VERIF oracle: non-comparison operator (unsupported)"),
+        }
+    }
+    fn oracle(op: BinaryOp, who: u8) -> bool {
+        unsafe { ASKED = who };
+        let r: bool = kani::any();
+        kani::assume(!unsafe { HOLDS[op_ix(op)] } || r);
+        r
+    }
+    pub fn check_i64_stats(_s: &ParquetStatistics, op: BinaryOp, _v: i64) -> bool {
+        oracle(op, 1)
+    }
+    pub fn check_i32_stats(_s: &ParquetStatistics, op: BinaryOp, _v: i32) -> bool {
+        oracle(op, 2)
+    }
+    pub fn check_f64_stats(_s: &ParquetStatistics, op: BinaryOp, _v: f64) -> bool {
+        oracle(op, 3)
+    }
+    pub fn check_utf8_stats(_s: &ParquetStatistics, op: BinaryOp, _v: &str) -> bool {
+        oracle(op, 4)
+    }
+    include!("/verif/kani/gen/kx_check_comparison_d.rs");
+}
+/// specification of "literal on the left": `lit op col` is `col mirror(op) lit`
+fn mirror(op: BinaryOp) -> BinaryOp {
+    match op {
+        BinaryOp::Lt => BinaryOp::Gt,
+        BinaryOp::LtEq => BinaryOp::GtEq,
+        BinaryOp::Gt => BinaryOp::Lt,
+        BinaryOp::GtEq => BinaryOp::LtEq,
+        o => o,
+    }
+}
+macro_rules! dispatch_harness {
+    ($name:ident, $lit:expr, $who:expr) => {
+        #[kani::proof]
+        #[kani::unwind(3)]
+        fn $name() {
+            unsafe {
+                disp::HOLDS = [kani::any(), kani::any(), kani::any(), kani::any(), kani::any(), kani::any()];
+            }
+            let op = any_cmp();
+            let flipped: bool = kani::any();
+            let lit: ScalarValue = $lit;
+            let stats = ParquetStatistics::boolean(None, None, None, None, false); // opaque to the oracles
+            let r = disp::kx_check_comparison_d(&stats, &op, &lit, flipped);
+            // the row-level predicate is `x op lit`, or `lit op x` when the literal is on the left
+            let col_op = if flipped { mirror(op) } else { op };
+            if unsafe { disp::HOLDS[disp::op_ix(col_op)] } {
+                assert!(r);
+            }
+            assert!(unsafe { disp::ASKED } == $who);
+            kani::cover!(!r && flipped);
+            std::mem::forget(lit);
+        }
+    };
+}
+dispatch_harness!(c05_l4_dispatch_int64, ScalarValue::Int64(kani::any()), 1);
+dispatch_harness!(c05_l4_dispatch_timestamp, ScalarValue::Timestamp(kani::any()), 1);
+dispatch_harness!(c05_l4_dispatch_int32, ScalarValue::Int32(kani::any()), 2);
+dispatch_harness!(c05_l4_dispatch_date32, ScalarValue::Date32(kani::any()), 2);
+dispatch_harness!(c05_l4_dispatch_float64, ScalarValue::Float64(OrderedFloat(kani::any())), 3);
+dispatch_harness!(c05_l4_dispatch_float32, ScalarValue::Float32(OrderedFloat(kani::any())), 3);
+dispatch_harness!(c05_l4_dispatch_utf8, ScalarValue::Utf8(String::from("m")), 4);
+
+/// check_utf8_stats: ByteArray statistics consistent with the row's string, byte order.
+/// B(min / max / row value / literal of exactly 1 byte each).
+#[kani::proof]
+#[kani::unwind(6)]
+fn c05_l2_check_utf8_stats_b1() {
+    let (mn, mx, x, v): (u8, u8, u8, u8) = (kani::any(), kani::any(), kani::any(), kani::any());
+    kani::assume(mn < 0x80 && mx < 0x80 && x < 0x80 && v < 0x80);
+    kani::assume(mn <= x && x <= mx);
+    let op = any_cmp();
+    let stats = ParquetStatistics::byte_array(
+        Some(parquet::data_type::ByteArray::from(vec![mn])),
+        Some(parquet::data_type::ByteArray::from(vec![mx])),
+        None,
+        opt_u64(),
+        false,
+    );
+    let vb = [v];
+    let val = std::str::from_utf8(&vb).unwrap();
+    let r = check_utf8_stats(&stats, op, val);
+    if holds_bytes(op, &[x], &[v]) {
+        assert!(r);
+    }
+    kani::cover!(!r);
+    std::mem::forget(stats);
+}
+
 // ---------------------------------------------------------------- L5 / L6 combinators (inductive step)
 // The bodies of row_group_might_match / row_group_definitely_matches / prune_row_groups
 // are compiled verbatim inside `comb`, where the names they call resolve to CONTRACT
